@@ -449,7 +449,7 @@ def fold(res, parts):
 def c02(tier):
     build("cli", "vh")
     r = Result("C02", "exploration", "one evaluation = one seeded history over {write, delete, edit-conflict-copy, bisync} on two real directories (scripted shapes from the quantifier first, then random); before/after every run both trees are snapshotted and the loss monitor checks every (side, path, content) version present at run start: unless it is the last common version and the other side changed/deleted the path, its content must be on BOTH sides after a completed run (on at least one after an aborted run); distinct non-trivial = distinct op-kind shapes with >= 1 completed run that applied >= 1 action while a non-exempt version existed")
-    n = 5000 if tier == "thorough" else 260
+    n = 5000 if tier == "thorough" else 1500
     fold(r, run_pool(_c02_worker, seed(), n, "c02"))
     r.assumptions = ["contents are located by hash anywhere in the tree (the statement does not pin the path)", "the archive file is never consulted by this oracle; last_common is derived from the driver's own snapshots", "names ending in .copia-tmp are outside the domain"]
     finish(r, tier)
@@ -684,7 +684,7 @@ def same_content(pre, post):
 def c06(tier):
     build("cli", "vh")
     r = Result("C06", "exploration", "one evaluation = one history executed three times in fresh sandboxes (as generated; every mtime re-drawn; directories swapped consistently), with an immediate second run after every run; on every completed run: A == B as path->bytes, archive entries == {path -> BLAKE3(bytes), File} of the tree (BLAKE3 computed by the harness), second run prints `0 action(s)` and changes no (bytes, mtime_ns, inode), divergent edits resolve to greater-BLAKE3 at path and the other at path.conflict-vh-<12 hex>; final trees of the three replays coincide; distinct non-trivial = op-kind shapes with >= 1 conflict or >= 1 path deleted on both sides")
-    n = 1500 if tier == "thorough" else 150
+    n = 2500 if tier == "thorough" else 450
     fold(r, run_pool(_c06_worker, seed(), n, "c06"))
     r.assumptions = ["comparison is modulo reserved staging names", "metamorphic comparison is skipped for histories in which a run aborted (file/directory clashes)", "winner-rule check of the conflict-copy NAME is skipped when that name already existed before the run (collision, see known finding under C02)"]
     finish(r, tier)
@@ -867,7 +867,7 @@ def c07(tier):
     build("cli", "vh")
     r = Result("C07", "fault_enumeration", "one evaluation = one (tree pair with a real archive and pending one-sided deletes, archive fault) followed by a dry run and a real run; faults: 18 kinds incl. removal, zero length, garbage, wrong-shape JSON, format_version != 1, foreign pair's real archive, only .bak/.tmp left, plus a truncation sweep at EVERY byte offset of real archives; verdict from snapshots: no path removed on either side, every pre-run content on both sides after, SAFE banner, no Delete* line; distinct non-trivial = (fault kind or truncation offset, tree) where a control dry run with the unfaulted archive planned >= 1 delete")
     th = tier == "thorough"
-    n = (800 if th else 40) * len(FAULT_KINDS)
+    n = (800 if th else 60) * len(FAULT_KINDS)
     fold(r, run_pool(_c07_worker, seed(), n, "c07", extra=(False,)))
     # truncation sweeps: determine the archive size of tree t by building it once
     ntrees = 20 if th else 2
@@ -1119,7 +1119,7 @@ def c08(tier):
     if th:
         names += ["gen%d" % i for i in range(40)]
     else:
-        names += ["gen%d" % (seed() * 7 + i) for i in range(4)]
+        names += ["gen%d" % (seed() * 7 + i) for i in range(12)]
     wroot = workdir("c08")
     jobs = [(seed(), i, i + 1, wroot, names) for i in range(len(names))]
     with Pool(NCPU) as pool:
